@@ -43,6 +43,9 @@ def gen_cases(seed, tier):
     # one entry point iterated alone on its own result (4 variants x reference before/after)
     for i in range(8 if tier == 'quick' else 64):
         cases.append(('permiter', [rng.word() for _ in range(12)], [3 + i % 3, i % 4, (i // 4) % 2]))
+    # concurrent callers that are not members of one OpenMP team (plain threads): 8 threads x reps permutations each
+    for i in range(3 if tier == 'quick' else 12):
+        cases.append(('permconc', [8, 1500 if tier == 'quick' else 6000, i % 3, rng.next() & 0xFFFFFFFF], []))
     stride = max(1, len(states) // nfull)
     for i, s in enumerate(states):
         full = (i % stride == 0) or i < 4
@@ -123,6 +126,25 @@ def directed_states(consts, seed, n):
             out.append(pull(v, r))
         except Exception:
             pass
+    # sparse S-box inputs: the twelve words entering the 7th power of round r (r = 0..3) are powers of two, sums of two
+    # powers of two, words with one zero half, 2^k - 1 (the products inside x^7 then have whole zero 32-bit columns)
+    def sparse():
+        k = rng.below(7)
+        a, b = rng.below(64), rng.below(64)
+        w = [1 << a, (1 << a) + (1 << b), (1 << a) - 1, (rng.below(1 << 32)) << 32, rng.below(1 << 32), (1 << a) | 1, M - (1 << a)][k]
+        return w % P
+    for t in range(n):
+        r = t % 4
+        sv = [sparse() for _ in range(12)]
+        if t % 3 == 1:
+            sv = [sv[0]] * 12
+        elif t % 3 == 2:
+            keep = rng.below(12); sv = [sv[i] if i == keep else rng.next() % P for i in range(12)]
+        v = [(pow(sv[i], 7, P) + C[(r + 1) * 12 + i]) % P for i in range(12)]
+        try:
+            out.append(pull(v, r))
+        except Exception:
+            pass
     return out
 
 
@@ -131,6 +153,8 @@ def write_cases(path, cases):
         for op, s, b in cases:
             if op == 'permchain':
                 f.write('permchain %d ' % b[0] + ' '.join('0x%x' % x for x in s) + '\n')
+            elif op == 'permconc':
+                f.write('permconc %d %d %d %d\n' % tuple(s))
             elif op == 'permiter':
                 f.write('permiter %d %d %d ' % tuple(b) + ' '.join('0x%x' % x for x in s) + '\n')
             else:
@@ -183,6 +207,10 @@ def run(tier, seed, replay=None):
                                     [('permfull', x[1], x[2]) if (i == ci - 1 and x[0] == 'perm') else x for i, x in enumerate(cases)], ci, env={'PCONST': pc})
             if how and rec.get('e') == 'iter':
                 names = ['scalar in place', 'AVX2 in place', 'AVX2 out of place (ping-pong)', 'AVX512 in place']
+                if rec.get('concurrent'):
+                    ck.violation('%s build: %s called by %d concurrent plain threads returns another result than the single-threaded scalar call' % (variant, ['scalar', 'AVX2 out of place', 'AVX2 in place'][rec['variant'] % 10 % 3], rec['concurrent']),
+                                 'state %s' % ' '.join('%x' % vlib.unw64(x) for x in rec['in']), dict(cases=[[case[0], list(case[1]), list(case[2])]]))
+                    continue
                 bad = [i for i in range(rec['k']) if rec['outs'][12 * i:12 * i + 12] != rec['ref'][12 * i:12 * i + 12]]
                 ck.violation('%s build: %s iterated on its own result departs from the permutation at step %s%s' % (variant, names[rec['variant'] % 4], (bad[0] + 1) if bad else '?', vlib.HIST if how == 'history' else ''),
                              'k=%d start state %s' % (rec['k'], ' '.join('%x' % x for x in case[1])), dict(cases=[[x[0], list(x[1]), list(x[2])] for x in (cases[:ci] if how == 'history' else [case])]))
